@@ -147,6 +147,30 @@ def mc_parts(chk, tier):
             chk.add_mc(c, r, constants=open(os.path.join(SPEC, c)).read().split("\n")[1])
 
 
+def apalache_part(chk, tier):
+    """C04, unbounded number of nodes: Apalache discharges the inductive invariant of the counter abstraction ParCounters.tla
+    (no worker parked unless a node is in progress; complete only when nothing is open); TLC checks that MC_ParBnB refines it."""
+    import subprocess
+    obligations = []
+    for n in ([3] if tier == "quick" else [3, 5]):
+        for name, args in (("Init => IndInv", ["--init=Init", "--inv=IndInv", "--length=0"]), ("IndInv /\\ Next => IndInv'", ["--init=IndInit", "--inv=IndInv", "--length=1"]),
+                           ("IndInv => C04_NoDeadlock", ["--init=IndInit", "--inv=C04_NoDeadlock", "--length=0"])):
+            out = os.path.join(WORK, "apalache", f"{chk.pid}_{n}_{len(obligations)}")
+            os.makedirs(out, exist_ok=True)
+            try:
+                p = subprocess.run(["apalache-mc", "check", "--cinit=ConstInit", f"--out-dir={out}"] + args + [f"ParCounters{n}.tla"], cwd=os.path.join(SPEC, "apalache"),
+                                   capture_output=True, text=True, timeout=1800)
+            except subprocess.TimeoutExpired:
+                raise ToolError("apalache timed out")
+            ok = "The outcome is: NoError" in p.stdout
+            obligations.append({"workers": n, "obligation": name, "discharged": ok})
+            if not ok:
+                log(p.stdout[-2000:])
+                raise ToolError(f"Apalache did not discharge {name} for {n} workers (specification-level failure)")
+    chk.cov["apalache_inductive_invariant"] = {"module": "spec/ParCounters.tla", "obligations": obligations,
+                                               "meaning": "fringe size and ongoing counter unbounded; IndInv = TypeOK /\\ Acc_Ongoing /\\ C04_NoLostWakeup /\\ C04_CompleteMeansDone"}
+
+
 def mc_seqc_part(chk, w, tier):
     """C09 on the specification: the composed caching search (sequential loop x DD.tla with cache filter and thresholds x ThresholdCache)"""
     thorough = tier == "thorough"
@@ -351,6 +375,8 @@ def par_check(pid, modes, seq_plan=None, rule_extra=""):
         chk.cov["rule"] = PAR_RULE + ("; plus " + SEQ_RULE if seq_plan else "") + rule_extra
         chk.assumptions = PAR_ASSUME + (SEQ_ASSUME if seq_plan else [])
         mc_parts(chk, tier)
+        if pid == "C04":
+            apalache_part(chk, tier)
         table_replay_part(chk, w, tier)
         return chk.finish()
     return f
